@@ -37,6 +37,7 @@ LEVEL = "exploration"
 ENGINE = "E1"
 CAP_S = {"quick": 900, "thorough": 1700}
 HANG_S = 5.0
+MAX_HANGS = 3      # a shard that met this many confirmed hangs stops (reported as capped): each costs >= 10 s
 
 # ------------------------------------------------------------------ alphabets (DESIGN section 3, C14)
 ALPHA = {
@@ -172,6 +173,7 @@ def call(res, ep, fn, documented, case, what):
             res.count("slow_calls_not_hangs")
             return "ok", None
         key = "%s/hang/%s" % (ep, where)
+        res.count("hangs_confirmed")
         res.violate(key, dict(case, ep=ep), "%s: no result after %g s of CPU time" % (what, HANG_S))
         return "bad", key
     except Exception as e:
@@ -296,7 +298,7 @@ def _part_tok(sh, tier, res):
     with _Timer():
         for L, s in it:
             n += 1
-            if not n & 255 and deadline_passed():
+            if (not n & 255 and deadline_passed()) or res.counters.get("hangs_confirmed", 0) >= MAX_HANGS:
                 res.capped = True
                 break
             check_string(fam, s, res)
@@ -619,7 +621,7 @@ def _part_tree(sh, tier, res):
         for idx, chain in enumerate(trees(tier)):
             if idx % sh["n"] != sh["i"]:
                 continue
-            if deadline_passed():
+            if deadline_passed() or res.counters.get("hangs_confirmed", 0) >= MAX_HANGS:
                 res.capped = True
                 break
             n += 1
